@@ -20,14 +20,6 @@ Record cfg := {
 }.
 Definition cfg_ok (c : cfg) : bool := useless_by_id c && first_order_by_id c && surface_by_id c.
 
-(* np.unique: ascending, duplicates removed *)
-Fixpoint insertZ (x : Z) (l : list Z) : list Z :=
-  match l with
-  | [] => [x]
-  | y :: r => if Z.ltb x y then x :: l else if Z.eqb x y then l else y :: insertZ x r
-  end.
-Definition uniqueZ (l : list Z) : list Z := fold_right insertZ [] l.
-
 (* the two-pointer sweep of remove_useless_nodes over the ascending node ids
    xs and the ascending useful ids us: the mask of the xs that are useful;
    None = the loop runs past the end of xs (IndexError) *)
